@@ -95,6 +95,21 @@ def _int(I, args, kw):
     return sym.trunc(x)
 
 
+@model('copy.copy')
+def _copy_copy(I, args, kw):
+    x = args[0]
+    if isinstance(x, dict):
+        return dict(x)
+    if isinstance(x, list):
+        return list(x)
+    if isinstance(x, (tuple, str, bytes, int, float, bool, type(None))) or is_sym(x):
+        return x
+    if getattr(x, 'is_sarr', False):
+        from . import nparr
+        return nparr.copy_of(I, x)
+    raise Unsupported('copy.copy of %s' % type(x).__name__)
+
+
 @model('builtins.float')
 def _float(I, args, kw):
     x = args[0]
